@@ -230,3 +230,36 @@ func TestReproLargestPeerMessageIsWrittenButNotReadable(t *testing.T) {
 		t.Skip("not reproduced")
 	}
 }
+
+// Observation (not judged by the rig, which stays away from this window): after
+// RotateFile the head file does not exist until the next write or the next
+// tick's size check recreates it. In that window a search on the running WAL
+// fails with ENOENT for a completely written marker, and a reader that reaches
+// the end of the log gets an error instead of end-of-log. The node calls
+// SearchForEndHeight only right after opening the group (OpenAutoFile creates
+// the head), so its own paths do not hit the window.
+func TestObserveNoHeadFileRightAfterRotation(t *testing.T) {
+	dir := t.TempDir()
+	wal, err := cs.NewWAL(filepath.Join(dir, "wal"))
+	if err != nil {
+		t.Fatal(err)
+	}
+	if err := wal.Start(); err != nil {
+		t.Fatal(err)
+	}
+	defer wal.Group().Head.Close()
+	defer wal.Stop()
+	wal.WriteSync(cs.EndHeightMessage{Height: 1})
+	wal.Group().RotateFile()
+	gr, found, err := wal.SearchForEndHeight(1, &cs.WALSearchOptions{IgnoreDataCorruptionErrors: true})
+	if gr != nil {
+		gr.Close()
+	}
+	t.Logf("right after RotateFile: SearchForEndHeight(1): found=%v err=%v", found, err)
+	wal.WriteSync(reproVote(2))
+	gr, found, err = wal.SearchForEndHeight(1, &cs.WALSearchOptions{IgnoreDataCorruptionErrors: true})
+	if gr != nil {
+		gr.Close()
+	}
+	t.Logf("after the next write:   SearchForEndHeight(1): found=%v err=%v", found, err)
+}
